@@ -85,13 +85,20 @@ class Harness:
             pass
         shutil.rmtree(self.tmp, ignore_errors=True)
 
-    # file values are written {"__file__": name} in a case (canonical, temp-dir independent)
+    # file values are written {"__file__": name} in a case (canonical, temp-dir independent);
+    # {"__dir__": name} an existing directory, {"__path__": name} a not-yet-existing path
     def decode(self, v):
         if isinstance(v, dict) and "__file__" in v:
             p = self.tmp / "in" / v["__file__"]
             if not p.exists():
                 p.write_text("x")
             return p
+        if isinstance(v, dict) and "__dir__" in v:
+            p = self.tmp / "in" / v["__dir__"]
+            p.mkdir(exist_ok=True)
+            return p
+        if isinstance(v, dict) and "__path__" in v:  # a path that does not exist (explicit output location)
+            return self.tmp / "elsewhere" / v["__path__"]
         if isinstance(v, list):
             return [self.decode(e) for e in v]
         return v
@@ -232,14 +239,30 @@ def preimport():
     import pydra.utils.typing  # noqa
 
 
+def warmup():
+    """one real case in the parent so that lazily imported plugins are loaded before forking"""
+    f = dict(name="a", kind="file", optional=False, argstr="-a", position=None, sep=" ")
+    with Harness() as H:
+        check_definition(Agg(), "cmd", [f], [({"a": {"__file__": "w.txt"}}, ())], H, with_job=True)
+
+
 class Runner:
     """one fork pool for the whole check (<= 16 processes); chunks are evaluated in order"""
 
     def __init__(self, ctx, procs=16):
+        import gc
+
         preimport()
+        warmup()
         self.ctx = ctx
         self.procs = max(1, min(procs, 16, os.cpu_count() or 1))
-        self.pool = mp.get_context("fork").Pool(self.procs) if self.procs > 1 else None
+        self.pool = None
+        if self.procs > 1:
+            # children must not have the cyclic GC walk (and thereby copy) the inherited heap
+            gc.collect()
+            gc.freeze()
+            self.pool = mp.get_context("fork").Pool(self.procs)
+            gc.unfreeze()
 
     def __enter__(self):
         return self
@@ -409,7 +432,7 @@ def run(ctx):
     )
     rnd = random.Random(ctx.seed)
     job_stride = ctx.pick(10, 10)
-    with Runner(ctx) as R:
+    with Runner(ctx, procs=ctx.pick(8, 16)) as R:
         # --- A: single field, everything
         domA = ctx.domain(
             "one-field",
@@ -424,7 +447,7 @@ def run(ctx):
             for pos in POSITIONS:
                 f = with_pos(opt, pos)
                 for exe in ("cmd", ["cmd", "sub"]):
-                    work.append((exe, [f], all_assignments([f], appends=((), ("X", "Y"))), True))
+                    work.append((exe, [f], all_assignments([f], appends=((), ("X", "Y"))), len(work) % 3 == 0))
         R.run(domA, _worker, chunked(work, 60))
 
         # --- B: two fields, full cross (thorough) / sampled (quick)
